@@ -55,11 +55,11 @@ Apply(st, o) ==
                          "OK", "ok", {o.k}, NoInfo)
                 ELSE Out(st, r.ret, r.why, {o.k, o.j}, NoInfo)
       [] o.op = "catn" ->             \* o.n times: a fresh index with o.m Records (o.u, o.v), flags o.f, padding 4*o.j, cat
+            \* (small values only, so every cat succeeds; the result of repeating DoCat written out directly)
             LET s == [recs |-> Copies(Rec(o.u, o.v), o.m), flags |-> o.f, pad |-> BigOf(4 * o.j)]
-                one == [streams |-> <<s>>, acc |-> {}]
-                RECURSIVE rep(_, _)
-                rep(d, n) == IF n = 0 THEN d ELSE rep(DoCat(d, one).idx, n - 1)
-            IN  upd(o.k, Res("OK", "ok", rep(reg[o.k], o.n)))
+                d == reg[o.k]
+            IN  upd(o.k, Res("OK", "ok", [streams |-> d.streams \o Copies(s, o.n),
+                                          acc |-> ChecksOp(d) \cup (IF o.n >= 2 /\ o.f.set THEN {o.f.check} ELSE {})]))
       [] o.op = "dup" -> upd(o.j, DoDup(reg[o.k]))
       [] o.op = "encdec" ->
             LET r == DoEncDec(reg[o.k])
@@ -77,9 +77,11 @@ Apply(st, o) ==
                 ELSE Out([st EXCEPT !.it.p = q], "FOUND", why, {}, IterInfo(i, q))
       [] o.op = "iter_locate" ->
             LET i == reg[it.slot]
-                b == LocateDecl(i, o.u)
+                L == Layout(i)
+                b == LocateIn(L.bl, o.u)
+                q == <<L.bl[b].s, L.bl[b].nstream>>
             IN  IF b = 0 THEN Out(st, "END", "beyond", {}, NoInfo)
-                ELSE Out([st EXCEPT !.it.p = PosOfBlock(i, b)], "FOUND", "inside", {}, IterInfo(i, PosOfBlock(i, b)))
+                ELSE Out([st EXCEPT !.it.p = q], "FOUND", "inside", {}, [s |-> q[1], b |-> b])
 
 (* The calls offered in state st, by kind (one TLC action per kind, so that a random walk picks    *)
 (* kinds, not values, uniformly).                                                                  *)
@@ -107,9 +109,15 @@ CandIterNext(st) == {Op("iter_next", 0, 0, Zero, Zero, m, 0, NoFlags) : m \in IF
 CandIterLocate(st) ==
     IF st.it.slot = 0 THEN {}
     ELSE LET i == st.reg[st.it.slot]
-         IN  {Op("iter_locate", 0, 0, t, Zero, 0, 0, NoFlags) : t \in LocTargetsOf(i, RangeOf(Layout(i).bl))}
+             L == Layout(i)
+         IN  {Op("iter_locate", 0, 0, t, Zero, 0, 0, NoFlags) :
+                 t \in LocTargetsOf(i, RangeOf(SelectSeq(L.bl, LAMBDA b : Sampled(i, L, b))))}
 CandIndexOps(st) == CandInit(st) \cup CandEnd(st) \cup CandAppend(st) \cup CandFlags(st) \cup CandPadding(st)
                     \cup CandCat(st) \cup CandDup(st) \cup CandEncDec(st)
+
+\* what catn abbreviates (GenIndex checks the two agree on samples)
+RECURSIVE CatNRepeated(_, _, _)
+CatNRepeated(d, s, n) == IF n = 0 THEN d ELSE CatNRepeated(DoCat(d, [streams |-> <<s>>, acc |-> {}]).idx, s, n - 1)
 
 \* one line of a plan: the call, its predicted result and the predicted observation of the touched slots
 Step(st, o) ==
